@@ -34,7 +34,7 @@ Definition wf_fmt (E : ext) (isapp : bool) (f : fmt) : Prop :=
                end /\ lt31 (h264_pmode x)
   | FMP4V x => dynp (mp4v_pt x) /\ lt31 (mp4v_plid x) /\
                match mp4v_config x with Some b => bytes_ok b /\ x_mp4v E b = true | None => True end
-  | FOpus pt ch => dynp pt /\ pos31 ch
+  | FOpus pt ch => pt < 256 /\ pos31 ch /\ (ch <= 2 \/ dynp pt)
   | FVorbis x => dynp (vo_pt x) /\ pos31 (vo_rate x) /\ pos31 (vo_ch x) /\
                  match vo_conf x with Some b => bytes_ok b | None => False end
   | FMP4A x => dynp (mp4a_pt x) /\ pos31 (mp4a_plid x) /\
@@ -55,9 +55,9 @@ Definition wf_fmt (E : ext) (isapp : bool) (f : fmt) : Prop :=
   | FSpeex x => dynp (sx_pt x) /\ pos31 (sx_rate x)
   | FG726 pt br _ => dynp pt /\ (br = 16 \/ br = 24 \/ br = 32 \/ br = 40)
   | FG711 pt mu r ch => (pt = 0 /\ mu = true /\ r = 8000 /\ ch = 1) \/ (pt = 8 /\ mu = false /\ r = 8000 /\ ch = 1) \/
-                        (dynp pt /\ pos31 r /\ pos31 ch)
+                        (pt < 256 /\ pt <> 0 /\ pt <> 8 /\ (mu = false \/ dynp pt) /\ pos31 r /\ pos31 ch)
   | FLPCM pt d r ch => (pt = 10 /\ d = 16 /\ r = 44100 /\ ch = 2) \/ (pt = 11 /\ d = 16 /\ r = 44100 /\ ch = 1) \/
-                       (dynp pt /\ (d = 8 \/ d = 16 \/ d = 24) /\ pos31 r /\ pos31 ch)
+                       (pt < 256 /\ pt <> 10 /\ pt <> 11 /\ (d = 8 \/ d = 16 \/ (d = 24 /\ dynp pt)) /\ pos31 r /\ pos31 ch)
   | FKLV pt => dynp pt
   | FMPEG1V | FMJPEG | FMPEG1A | FG722 | FMPEGTS => True
   | FGeneric pt m fm c =>
